@@ -104,6 +104,10 @@ def realise_descriptor(exts, rng, work):
         if e["type"] in ("FLAT", "VMFS"):
             name = name.replace(".vmdk", "-flat.vmdk")
         vf.materialise(os.path.join(d, name))
+        # a sibling file whose name differs only in the case of its letters belongs to some other disk
+        decoy = name.swapcase()
+        if decoy != name and not os.path.exists(os.path.join(d, decoy)):
+            _extent_file({k_: v_ for k_, v_ in e.items() if k_ != "lead"}, 0x60 + i, rng)[0].materialise(os.path.join(d, decoy))
         hosts.append(host)
         tail = " 0" if e["type"] == "FLAT" else ""
         lines.append(f'{rng.choice(["RW", "RW", "RDONLY"])} {e["n"] * GRAIN} {e["type"]} "{name}"{tail}')
@@ -380,7 +384,7 @@ def make_trace_hdd(tid, rng, nops=30, **opt):
         size_b = start * cs
         # one HDD object hands out several streams (what is opened earlier must not matter to what is opened later)
         hdd = HDD(Path(d))
-        first = hdd.open()
+        first = hdd.open(rng.choice(guids)) if rng.random() < 0.7 else hdd.open()     # another snapshot of the same disk, or the top one
         first.read(min(size_b, 4096))
         s = hdd.open() if rng.random() < 0.7 else HDD(Path(d)).open()
         fresh = hdd.open()
